@@ -368,6 +368,84 @@ def run_trace(events_path, name="trace", spec="trace/Trace_Events", workers=8, t
     return n, bad, r
 
 
+def run_drive_sessions(name, n, seed_offset=0):
+    """Sessions of 5-40 calls through ONE path / authority handle of the real code, recorded as events."""
+    wdir = os.path.join(WORK, "drive", name)
+    shutil.rmtree(wdir, ignore_errors=True)
+    os.makedirs(wdir)
+    out = os.path.join(wdir, "events.ndjson")
+    r = sh([os.path.join(BIN, "drive"), "sessions", str(seed() + seed_offset), str(n), out],
+           stdout=subprocess.PIPE, stderr=subprocess.PIPE, timeout=3600)
+    if r.returncode != 0:
+        raise ToolError("drive sessions failed: " + r.stderr.decode(errors="replace")[-2000:])
+    log("drive  %-26s %9s session events recorded (%d sessions)" % (name, r.stdout.decode().strip(), n))
+    return out
+
+
+def run_trace_sessions(events_path, name, procs=8, timeout=7200):
+    """Stateful trace validation (spec/trace/Trace_Sessions.tla).  Sessions are independent of one
+    another, so the file is dealt out to `procs` TLC processes session by session; within a
+    session the specification carries the handle's abstract state from event to event."""
+    import threading
+    wdir = os.path.join(WORK, "trace", name)
+    shutil.rmtree(wdir, ignore_errors=True)
+    os.makedirs(wdir)
+    parts = [[] for _ in range(procs)]
+    k = -1
+    n = 0
+    with open(events_path) as fh:
+        for line in fh:
+            if not line.strip():
+                continue
+            if json.loads(line).get("ev", "").startswith("open_"):
+                k += 1
+            parts[max(k, 0) % procs].append(line)
+            n += 1
+    if n == 0:
+        return 0, [], []
+    running = []
+    for i, lines in enumerate(parts):
+        if not lines:
+            continue
+        f = os.path.join(wdir, "part%d.ndjson" % i)
+        with open(f, "w") as fh:
+            fh.writelines(lines)
+        running.append((i, f, len(lines)))
+    out = {}
+    errs = []
+
+    def work(i, f):
+        try:
+            out[i] = run_tlc("trace/Trace_Sessions", name="trace-%s-p%d" % (name, i), workers=1, timeout=timeout,
+                             coverage=False, env_extra={"TRACE": f}, xmx="3g")
+        except ToolError as e:
+            errs.append(str(e))
+
+    ths = [threading.Thread(target=work, args=(i, f)) for i, f, _ in running]
+    for t in ths:
+        t.start()
+    for t in ths:
+        t.join()
+    if errs:
+        raise ToolError("session trace validation failed: " + errs[0])
+    bad = []
+    results = []
+    for i, f, cnt in running:
+        r = out[i]
+        if r.error:
+            raise ToolError("trace specification error on %s part %d: %s" % (name, i, r.error))
+        if r.distinct != cnt + 1:
+            raise ToolError("session trace part %d consumed %d states, expected %d" % (i, r.distinct, cnt + 1))
+        with open(r.cases_path) as fh:
+            for line in fh:
+                o = json.loads(line)
+                if "nonconf" in o:
+                    bad.append(o)
+        results.append(r)
+    log("trace  %-26s %9d session events %6d non-conforming" % (name, n, len(bad)))
+    return n, bad, results
+
+
 def run_drive_parse(name, n, seed_offset=0):
     """Random texts (valid references, near misses, IP shapes, ill-formed UTF-8) through the real parsers."""
     wdir = os.path.join(WORK, "drive", name)
@@ -557,7 +635,8 @@ class Check:
                     "event_line": b["nonconf"]}
             if b.get("expected"):
                 fail["expected_one_of"] = [as_text(x) if x else "" for x in b["expected"]]
-                fail["observed"] = as_text(ev.get("post")) if ev.get("post") else ""
+                obs = ev.get("post") if "post" in ev else ev.get("view")
+                fail["observed"] = as_text(obs) if obs else ""
             self.judge(ev, [fail])
 
     def judge(self, case, fails):
